@@ -107,6 +107,13 @@ pub fn examine_texts(text_a: &str, text_b: &str, reference: Option<prog::RefRun>
         for (which, run) in [("A", &a), ("B", &b)] {
             if let Outcome::Value(v) = &run.outcome {
                 if let Some(why) = crate::oracle::cells_ok(v) {
+                    // was an unsound value (C01) produced earlier in this execution? then the cell content is its
+                    // consequence: keyed after that finding (first violation taints the execution)
+                    let text = if which == "A" { text_a } else { text_b };
+                    let m = crate::props::sound::run_text(text, FUEL);
+                    if let Some(first) = m.state.tainted.as_ref().filter(|k| !k.starts_with("c01:cell-content")) {
+                        return Some((format!("cell-content-after:{first}"), which.into(), format!("{why} (after the unsound value {first})")));
+                    }
                     return Some(("cell-content-not-of-declared-type".into(), which.into(), why));
                 }
             }
@@ -308,7 +315,7 @@ pub fn run(cfg: &Cfg, rep: &mut Report, spec: &Spec) {
         let small = prog::shrink(&body, |c| examine(c, spec, None).is_some_and(|(k, _, _)| k == cls), 300);
         let (class2, which2, detail2) = examine(&small, spec, None).unwrap_or((class.clone(), which.clone(), detail.clone()));
         let cons = prog::constructs(&small).join(",");
-        let key = if class2 == "closure-creation-folding-error" { format!("{}:{class2}", spec.prop.to_lowercase()) } else { format!("{}:{class2}:{{{cons}}}", spec.prop.to_lowercase()) };
+        let key = if class2 == "closure-creation-folding-error" || class2.starts_with("cell-content-after:") { format!("{}:{class2}", spec.prop.to_lowercase()) } else { format!("{}:{class2}:{{{cons}}}", spec.prop.to_lowercase()) };
         let small_a = prog::program_text(&small, Mode::Literal);
         let small_b = prog::program_text(&small, Mode::Hidden);
         let payload = format!(
@@ -353,7 +360,7 @@ pub fn replay(cfg: &Cfg, payload: &str, rep: &mut Report, spec: &Spec) {
         let small = prog::shrink(&body, |c| examine(c, spec, None).is_some_and(|(k, _, _)| k == cls), 300);
         let (class2, which2, detail2) = examine(&small, spec, None).unwrap_or((class, String::new(), String::new()));
         let cons = prog::constructs(&small).join(",");
-        let key = if class2 == "closure-creation-folding-error" { format!("{}:{class2}", spec.prop.to_lowercase()) } else { format!("{}:{class2}:{{{cons}}}", spec.prop.to_lowercase()) };
+        let key = if class2 == "closure-creation-folding-error" || class2.starts_with("cell-content-after:") { format!("{}:{class2}", spec.prop.to_lowercase()) } else { format!("{}:{class2}:{{{cons}}}", spec.prop.to_lowercase()) };
         let small_a = prog::program_text(&small, Mode::Literal);
         rep.violation(&key, &format!("[{which2}] {detail2} :: {}", truncate(&small_a[crate::ast::PRELUDE.len()..], 500)), "diff", payload);
     }
